@@ -9,7 +9,8 @@ sys.path.insert(0, os.path.dirname(os.path.abspath(__file__)))
 from _util import *
 from c11_ast import repr_canon, source_canon
 
-from typing import Annotated, Any                                    # noqa: E402
+from typing import Annotated, Any, ClassVar                          # noqa: E402
+from dataclasses import InitVar                                       # noqa: E402
 import dataclass_wizard as dw                                          # noqa: E402
 from dataclass_wizard import (JSONWizard, EnvWizard, SkipIf, skip_if_field, json_field, json_key,   # noqa: E402
                               asdict, DumpMeta)
@@ -139,24 +140,106 @@ def h_sem(p):
 _n = [0]
 
 
+SHARED = {}     # share key -> (Condition object, comparison value): module-level conditions reused by several classes
+
+
+def mk_cond_shared(c, table, wrap):
+    """like mk_cond; a descriptor carrying 'share' denotes ONE Condition object (and one value
+    object) for the whole interpreter, e.g. a module-level `SKIP = SkipIf(EQ([0]))`."""
+    if c is None or not c.get('share'):
+        return mk_cond(c, table, wrap)
+    key = c['share']
+    if key not in SHARED:
+        SHARED[key] = (mk_cond(c, table, True), None if c['val'] is None else located(c['val'], table))
+    cond, val = SHARED[key]
+    if c['val'] is not None:
+        table[c['val']['l']] = val
+    return cond
+
+
+def field_line(i, f, ns, table):
+    ann = ['Any']
+    fn = None              # field function
+    args = []
+    if f['default'] is not None:
+        dv = located(f['default'], table)
+        fac = f.get('factory')
+        if fac == 'fresh':
+            ns['DF%d' % i] = (lambda d: (lambda: build(d)))(f['default']['d'])
+            args.append('default_factory=DF%d' % i)
+        elif fac or isinstance(dv, (list, dict, set)):
+            ns['DF%d' % i] = (lambda x: (lambda: x))(dv)
+            args.append('default_factory=DF%d' % i)
+        else:
+            ns['D%d' % i] = dv
+            args.append('default=D%d' % i)
+    for k in ('init', 'repr', 'compare'):
+        if f.get(k) is False:
+            args.append('%s=False' % k)
+    cond = f.get('cond')
+    place = f.get('place')
+    first = []
+    if not f['dump']:
+        if f.get('dump_via') == 'annotated':
+            ann.append("json_key(%r, dump=False)" % f['name'])
+        elif f.get('dump_via') == 'v1_annotated':
+            ann.append("V1Alias(skip=True)")
+        elif f.get('dump_via') == 'v1_field':
+            fn, first = 'V1Alias', ['skip=True']
+        else:
+            fn, first = 'json_field', ['%r' % f['name'], 'dump=False']
+    if cond is not None:
+        if place == 'field' and fn is None:
+            ns['C%d' % i] = mk_cond_shared(cond, table, cond.get('wrap', False))
+            fn, first = 'skip_if_field', ['C%d' % i]
+        else:
+            ns['C%d' % i] = mk_cond_shared(cond, table, True)
+            ann.append('C%d' % i)
+    tp = ann[0] if len(ann) == 1 else 'Annotated[%s]' % ', '.join(ann)
+    if fn is None and len(args) == 1 and args[0].startswith('default='):
+        rhs = ' = ' + args[0][len('default='):]
+    elif fn is None and not args:
+        rhs = ''
+    else:
+        rhs = ' = %s(%s)' % (fn or 'dataclasses.field', ', '.join(first + args))
+    return '    %s: %s%s' % (f['name'], tp, rhs)
+
+
 def class_source(c, ns, table):
-    """source text of the class; objects are passed through the namespace `ns`."""
+    """source text of the class (and of its base dataclass, if the first `n_base` fields are
+    inherited); objects are passed through the namespace `ns`."""
     _n[0] += 1
     name = 'K%d' % _n[0]
     kind = c['wizard']
     base = {'json': 'JSONWizard', 'env': 'EnvWizard', 'plain': None}[kind]
-    lines = []
+    deco = None
     if kind != 'env':
-        lines.append('@dataclasses.dataclass(kw_only=True)')
-    lines.append('class %s%s:' % (name, '(%s)' % base if base else ''))
+        opts = ['kw_only=%r' % bool(c.get('kw_only', True))]
+        if c.get('frozen'):
+            opts.append('frozen=True')
+        if c.get('slots'):
+            opts.append('slots=True')
+        deco = '@dataclasses.dataclass(%s)' % ', '.join(opts)
     meta = c['meta']
     meta_kw = {}
     if meta.get('skip_defaults') is not None:
         meta_kw['skip_defaults'] = bool(meta['skip_defaults'])
     if meta.get('skip_if') is not None:
-        meta_kw['skip_if'] = mk_cond(meta['skip_if'], table, meta['skip_if'].get('wrap', False))
+        meta_kw['skip_if'] = mk_cond_shared(meta['skip_if'], table, meta['skip_if'].get('wrap', False))
     if meta.get('skip_defaults_if') is not None:
-        meta_kw['skip_defaults_if'] = mk_cond(meta['skip_defaults_if'], table, meta['skip_defaults_if'].get('wrap', False))
+        meta_kw['skip_defaults_if'] = mk_cond_shared(meta['skip_defaults_if'], table, meta['skip_defaults_if'].get('wrap', False))
+    lines = []
+    nb = c.get('n_base', 0) if kind != 'env' else 0
+    parent = base
+    if nb:
+        lines.append(deco)
+        lines.append('class B%s%s:' % (name, '(%s)' % base if base else ''))
+        for i, f in enumerate(c['fields'][:nb]):
+            lines.append(field_line(i, f, ns, table))
+        parent = 'B' + name
+    if deco:
+        lines.append(deco)
+    lines.append('class %s%s:' % (name, '(%s)' % parent if parent else ''))
     if base and (meta_kw or meta.get('v1')):
         lines.append('    class _(%s.Meta):' % base)
         if meta.get('v1'):
@@ -164,44 +247,22 @@ def class_source(c, ns, table):
         for k, v in meta_kw.items():
             ns['M_' + k] = v
             lines.append('        %s = M_%s' % (k, k))
+    body = 0
     for i, f in enumerate(c['fields']):
-        ann = ['Any']
-        call = None            # field factory call
-        kw = []
-        if f['default'] is not None:
-            dv = located(f['default'], table)
-            if f.get('factory') or isinstance(dv, (list, dict, set)):
-                ns['DF%d' % i] = (lambda x: (lambda: x))(dv)
-                kw.append('default_factory=DF%d' % i)
-            else:
-                ns['D%d' % i] = dv
-                kw.append('default=D%d' % i)
-        cond = f.get('cond')
-        place = f.get('place')
-        if not f['dump']:
-            if f.get('dump_via') == 'annotated':
-                ann.append("json_key(%r, dump=False)" % f['name'])
-            elif f.get('dump_via') == 'v1_annotated':
-                ann.append("V1Alias(skip=True)")
-            elif f.get('dump_via') == 'v1_field':
-                call = 'V1Alias(skip=True'
-            else:
-                call = 'json_field(%r, dump=False' % f['name']
-        if cond is not None:
-            if place == 'field' and call is None:
-                ns['C%d' % i] = mk_cond(cond, table, cond.get('wrap', False))
-                call = 'skip_if_field(C%d' % i
-            else:
-                ns['C%d' % i] = mk_cond(cond, table, True)
-                ann.append('C%d' % i)
-        tp = ann[0] if len(ann) == 1 else 'Annotated[%s]' % ', '.join(ann)
-        if call is not None:
-            rhs = ' = ' + call + ''.join(', ' + k for k in kw) + ')'
-        elif kw:
-            rhs = ' = ' + (kw[0][len('default='):] if kw[0].startswith('default=') else 'dataclasses.field(%s)' % kw[0])
-        else:
-            rhs = ''
-        lines.append('    %s: %s%s' % (f['name'], tp, rhs))
+        if i >= nb:
+            lines.append(field_line(i, f, ns, table))
+            body += 1
+    if kind != 'env':
+        if c.get('classvar'):
+            lines.append('    cv_attr: ClassVar[Any] = 5')
+        if c.get('initvar'):
+            lines.append('    iv_arg: InitVar[Any] = None')
+        # fields that are not constructor arguments are assigned here
+        lines.append('    def __post_init__(self, *_a):')
+        lines.append('        for _k, _v in _PI.items():')
+        lines.append('            object.__setattr__(self, _k, _v)')
+    elif not body:
+        lines.append('    pass')
     return name, '\n'.join(lines) + '\n', meta_kw
 
 
@@ -256,7 +317,8 @@ def run_case(c):
     table = {}
     ns = {'dataclasses': dataclasses, 'Annotated': Annotated, 'Any': Any, 'JSONWizard': JSONWizard,
           'EnvWizard': EnvWizard, 'SkipIf': SkipIf, 'skip_if_field': skip_if_field, 'json_field': json_field,
-          'json_key': json_key, 'V1Alias': V1Alias, '__name__': 'c11_gen'}
+          'json_key': json_key, 'V1Alias': V1Alias, 'ClassVar': ClassVar, 'InitVar': InitVar, '_PI': {},
+          '__name__': 'c11_gen'}
     reg0 = len(fb._VERIF_REGISTRY) if fb._VERIF_REGISTRY is not None else 0
     out = {}
     try:
@@ -294,15 +356,23 @@ def run_case(c):
                 out['is_builtin'][nm] = 'E:' + type(e).__name__
     insts = []
     for iv in c['instances']:
-        vals = [located(lv, table) for lv in iv]
-        kwargs = {f['name']: v for f, v in zip(c['fields'], vals)}
+        # a value marked 'omit' is not passed to the constructor: the field takes its default
+        kwargs = {f['name']: located(lv, table) for f, lv in zip(c['fields'], iv)
+                  if f.get('init', True) and not lv.get('omit')}
+        ns['_PI'].clear()
+        ns['_PI'].update({f['name']: located(lv, table) for f, lv in zip(c['fields'], iv)
+                          if not f.get('init', True) and not lv.get('omit')})
         rec = {'calls': []}
         try:
             inst = cls(**kwargs)
+            vals = [getattr(inst, f['name']) for f in c['fields']]
         except BaseException as e:  # noqa
             rec['setup_err'] = err_info(e)
             insts.append(rec)
             continue
+        for lv, v in zip(iv, vals):
+            table[lv['l']] = v          # the object the instance really holds (identity classes below)
+        kwargs = {f['name']: v for f, v in zip(c['fields'], vals)}
         for E in c['Es']:
             for s in c['ss']:
                 kw = {}
